@@ -281,7 +281,9 @@ def run(R):
     nl, ne, npf = ctx(R, TM + '.InterestNameField.encoded_length'), ctx(R, TM + '.InterestNameField.encode_into'), ctx(R, TM + '.InterestNameField.parse_from')
     probs = []
     src_l, src_e, src_p = ast.unparse(nl.f.node), ast.unparse(ne.f.node), ast.unparse(npf.f.node)
-    adds = [n for n in nl.cfg.nodes if n.kind == 'stmt' and isinstance(n.ast, ast.AugAssign) and ast.unparse(n.ast.target) == 'length']
+    # constant additions to the announced length (the components themselves may be summed by a loop)
+    adds = [n for n in nl.cfg.nodes if n.kind == 'stmt' and isinstance(n.ast, ast.AugAssign) and ast.unparse(n.ast.target) == 'length'
+            and not (isinstance(n.ast.value, ast.Call) and ast.unparse(n.ast.value.func) == 'len')]
     if len(adds) != 1 or ast.unparse(adds[0].ast.value) != '34':
         probs.append((nl, 'the appended digest component is not announced as 34 bytes (type, length, 32-byte value)', nl.f.node))
     else:
